@@ -1,6 +1,6 @@
 """Running the correspondence suites of a property and turning differences into verdicts."""
 import os, json, subprocess, time
-from . import build, config, coqside, sx
+from . import build, config, coqside, sx, report
 
 MAX_KEEP = 400          # mismatches kept for analysis (all are counted)
 MAX_ANALYSE = 60
@@ -191,6 +191,7 @@ def analyse(ctx, spec, hbin, drv, mism, extra=()):
         'verdict': c['verdict'],
         'original_case': c.get('original'),
         'differing_cases_total': len(mism),
+        'readable': report.pretty_sample('%s %s => %s' % (c['op'], c['args'], c['real'])),
     }
     if failing:
         rec['failed_clause'] = c['verdict']
